@@ -17,7 +17,10 @@ func TestModelSelfConsistency(t *testing.T) {
 		if only := os.Getenv("SMODEL_FORMAT"); only != "" {
 			f = Format(only)
 		}
-		m := Draw(rt, DefaultGenConfig(f))
+		cfg := DefaultGenConfig(f)
+		cfg.NestedCollections = rapid.Bool().Draw(rt, "nested")
+		cfg.NamedUnions = rapid.Bool().Draw(rt, "namedunions")
+		m := Draw(rt, cfg)
 		src := Render(f, m)
 		_ = os.WriteFile("/tmp/last_model_src.txt", []byte(src), 0o644)
 		v, err := NewValidator(f, m, src)
